@@ -6,7 +6,7 @@ catch_handler, and the derived forms (concat, start_with, repeat, retry, while_d
 The sources come from an iterator; `items j` is what the j-th `next(sources_)` does: yields a source
 (whose subscription gets id `j`), raises `StopIteration`, or raises something else (a failing
 factory / mapper / condition).  `repeat(n)`: `items j = src` for `j < n`; `while_do(c)`: `src` while the
-condition holds; `for_in`: `raise` where the mapper raises; `start_with`/`concat`: a finite list.
+condition holds (`fail` when it raises); `for_in`: `fail` where the mapper raises; `start_with`/`concat`: a finite list.
 
 `tick` is the operator's scheduled `action` (the scheduler hop between two sources).
 -/
@@ -17,6 +17,7 @@ inductive Item where
   | src
   | stop
   | raise (e : Err)
+  | fail (e : Err)    -- yields a source that fails at once with `e` (the code wraps a raising mapper / condition into `throw(ex)`)
 deriving Repr, BEq, DecidableEq
 
 inductive SeqKind where
@@ -75,6 +76,11 @@ def seqTick {α} (kind : SeqKind) (items : Nat → Item) (s : SeqSt) (done : Boo
       -- `except Exception as ex: observer.on_error(ex)`; on_error_resume_next: a raising source factory is
       -- caught the same way (`try: source = source(state) … except Exception as ex: observer.on_error(ex)`)
       ({ s with pending := false }, [Act.emit (.error e)])
+    | .fail e =>
+      -- for_in's mapper / while_do's condition raising: the iterator yields `defer(…)`/`throw(ex)`, an (unlogged) source that
+      -- is subscribed like any other (`subscription.disposable = d` closes the previous holder first) and fails at once.
+      -- Only meaningful for the concat kind (under catch / on_error_resume_next such a source would be continued over).
+      ({ s with pending := false }, [Act.unsub (s.idx - 1), Act.emit (.error e)])
 
 def seqM {α} (kind : SeqKind) (items : Nat → Item) : Machine SeqSt α α :=
   { handler := seqHandler kind, tick := seqTick kind items }
